@@ -116,13 +116,14 @@ Prune(kind, sel) ==
   /\ CanStep /\ deep
   /\ Step(OpRec("prune", "", FALSE, kind, Asc(sel), <<>>, DefPrune(cur.ws, kind, sel), ImplPrune(icur.ws, kind, sel)))
 
-\* relabellings: one name to the fresh name, a swap of two existing names, a missing name
 \* every name a renaming of this kind touches: for modifiers also the parameter configs and POIs of the
 \* measurements (they may name a modifier that was pruned away)
 NameSpace(w, kind) ==
   IF kind = "modifiers"
   THEN ModNames(w) \cup UNION {NamesOf(m.pars) \cup {m.poi} : m \in Range(w.meas)}
   ELSE ExistingOf(w, kind)
+\* relabellings (injective on NameSpace): one name to the fresh name, a swap of two existing names;
+\* and a missing name to the fresh one (refused)
 RenameMaps(w, kind) ==
   LET ex == ExistingOf(w, kind) IN
   (IF Fresh \in NameSpace(w, kind) THEN {} ELSE {<< <<a, Fresh>> >> : a \in ex \cup {Missing}})
